@@ -262,7 +262,8 @@ class Result:
         if k is not None:
             if k['key'] not in [h['key'] for h in self.known_hits]:
                 self.known_hits.append(k)
-                print('KNOWN-FINDING: property=%s %s' % (self.pid, k['what']))
+                # sys.__stdout__: verdict lines must not be swallowed by a redirect_stdout that silences the repo's chatter
+                print('KNOWN-FINDING: property=%s %s' % (self.pid, k['what']), file=sys.__stdout__, flush=True)
             return
         if len(self.violations) >= 20:
             return
@@ -274,7 +275,8 @@ class Result:
         with open(path, 'w') as fh:
             json.dump(rec, fh, indent=1, default=str)
         self.violations.append(path)
-        print('VIOLATION property=%s replay=%s%s' % (self.pid, path, ' no-failing-input-found' if no_input else ''))
+        print('VIOLATION property=%s replay=%s%s' % (self.pid, path, ' no-failing-input-found' if no_input else ''),
+              file=sys.__stdout__, flush=True)
 
     def broken_obligation(self, what, detail):
         self.broken.append(dict(what=what, detail=detail[:4000]))
